@@ -423,3 +423,17 @@ def r6(ctx: Ctx) -> None:
                 ok_f = True
         ctx.check(okc and ok_f, f, f.node, "the market is drawn from the accessible markets only", "self.get_prng().choices([m for m in markets if accessible(m)], weights)[0]", short(m)[:160])
     ctx.require(n >= 1, f"{q}: no returning path")
+
+
+@rule("C20.H1", "mechanism shared with C07: an agent's setup reads the group's settings and never writes them (all agents of a group are configured from the same values)", "T14 taint (same rule as the setup part of C07.R5)", floor=3)
+def h1(ctx: Ctx) -> None:
+    from .c07 import check_setups_pure
+
+    check_setups_pure(ctx, "Agent")
+
+
+@rule("C20.H2", "mechanism shared with C17: the computed index the arbitrage agent compares with is the current weighted average of the components", "accumulator shape (same rule as C17.R2)", floor=2)
+def h2(ctx: Ctx) -> None:
+    from .c17 import r2 as index_rule
+
+    index_rule(ctx)
